@@ -51,53 +51,6 @@ targets(const struct rspec *r, uint64_t out[16])
     return n;
 }
 
-struct verdict {
-    /* first address per failure class, -1 if the class does not apply */
-    long unmapped, readonly, invalid, range;
-    uint32_t overlapped; /* mask of registers the block overlaps */
-};
-
-static void
-oracle(const struct tab *t, uint32_t addr, uint32_t n, const RegisterAtom *buf, struct verdict *v)
-{
-    const struct tspec *s = &t->s;
-    v->unmapped = v->readonly = v->invalid = v->range = -1;
-    v->overlapped = 0;
-    for (uint32_t a = addr; a < addr + n; ++a) {
-        const int ai = flat_area_of(s, a);
-        if (ai < 0) {
-            if (v->unmapped < 0)
-                v->unmapped = a;
-        } else if (!flat_writable(&s->a[ai])) {
-            if (v->readonly < 0)
-                v->readonly = a;
-        }
-    }
-    for (int r = 0; r < s->nr; ++r) {
-        const struct rspec *rs = &s->r[r];
-        const uint32_t rw = ref_words(rs->type);
-        if (n == 0 || rs->addr + rw <= addr || addr + n <= rs->addr)
-            continue;
-        v->overlapped |= 1u << r;
-        unsigned char img[8];
-        flat_reg_image(t, r, img);
-        for (uint32_t w = 0; w < rw; ++w) {
-            const uint32_t a = rs->addr + w;
-            if (a >= addr && a < addr + n)
-                memcpy(img + 2 * w, &buf[a - addr], 2);
-        }
-        const uint64_t bits = ref_unimage(rs->type, img, s->be);
-        const long first = (long)(addr > rs->addr ? addr : rs->addr);
-        if (!ref_storable(rs->type, bits)) {
-            if (v->invalid < 0)
-                v->invalid = first;
-        } else if (!ref_constraint(rs, ref_from_bits(rs->type, bits))) {
-            if (v->range < 0)
-                v->range = first;
-        }
-    }
-}
-
 static long n_accept, n_refuse;
 
 /* one block write with the given words; storage and touched marks are
@@ -109,7 +62,7 @@ one_write(uint32_t addr, uint32_t n, const RegisterAtom *words, const char *pnam
     const size_t total = flat_snapshot(&tb, before);
     RegisterAtom *buf = mc_exact_copy(words, n * sizeof(RegisterAtom));
     struct verdict v;
-    oracle(&tb, addr, n, buf, &v);
+    flat_write_verdict(&tb, addr, n, buf, &v);
     const bool want_ok = v.unmapped < 0 && v.readonly < 0 && v.invalid < 0 && v.range < 0;
     touched_restore(&tb, 0);
     tb.cb_oob = 0;
